@@ -64,15 +64,30 @@ def lazy_encoder_declares_unused_value(case, v):
     """KF05: lazy encoders derive their variables from per-slot bounds without enumerating: a declared variable can have
     a single value that is ever used"""
     d = _d(v)
-    return d.get('group') == 'lazy'
+    return d.get('group') in ('lazy', 'pattern')   # pattern encoders are lazy encoders too
 
 
 def pattern_encoder_cannot_decode_declared_value(case, v):
     """KF06: a pattern encoder accepted the settings but raises 'Pattern encoder should never (automatically) impute'
     for declared values (settings with existence patterns that absent nodes or override degree lists)"""
     d = _d(v)
-    return 'Pattern encoder should never' in (d.get('msg') or v.get('detail', '')) and \
-        d.get('group', 'pattern') == 'pattern'
+    if 'Pattern encoder should never' not in (d.get('msg') or v.get('detail', '')) or \
+            d.get('group', 'pattern') != 'pattern':
+        return False
+    ms = case.get('ms')
+    if ms is not None:
+        # encoder level: seen for a single source x single target ('collapsed' combining / 1x1 assigning), for existence
+        # patterns that leave one side without any node, and for settings with an explicit max_conn_parallel
+        pat = d.get('pattern') or {}
+        def _n_eff(side):
+            ov = pat.get(side) or {}
+            return sum(1 for i, nd in enumerate(ms[side])
+                       if ov.get(str(i), nd.get('conns')) != [0])   # absent or zero-degree nodes do not take part
+        n_src, n_tgt = _n_eff('src'), _n_eff('tgt')
+        return (n_src <= 1 and n_tgt <= 1) or n_src == 0 or n_tgt == 0 or ms.get('par') is not None
+    # graph level: a connection choice with a single source or a single target connector
+    spec = _spec(case)
+    return any(len(cc['src']) == 1 or len(cc['tgt']) == 1 for cc in spec.get('conns', []))
 
 
 def pattern_encoder_single_option_variable(case, v):
@@ -212,7 +227,7 @@ def open_ended_group_parallel_limit(case, v):
 
 def pattern_encoder_impute_at_graph_level(case, v):
     """KF06 at graph level: the selected pattern encoder raises 'Pattern encoder should never (automatically) impute'"""
-    return 'Pattern encoder should never' in _msg(v)
+    return pattern_encoder_cannot_decode_declared_value(case, v)
 
 
 def _permanent_nodes(spec):
